@@ -82,7 +82,7 @@ def collect_merge(res: CheckResult, repo: str, want=lambda cname: True) -> Dict[
     res.extra['functions_analysed'] = len({f for r in ok.values() for f in r['functions']})
     res.extra['paths_enumerated'] = sum(len(r['outcomes']) for r in ok.values())
     res.extra['call_sites'] = sum(len(v) for r in ok.values() for v in r['sites'].values())
-    summ = next((r['summaries'] for r in ok.values()), {})
+    summ = next((r['summaries'] for r in ok.values() if r.get('summaries')), {})
     res.extra['search_function_summaries'] = list(summ.values())
     if not summ:
         res.error('no child-search helper was recognised (utils.xml.find_child anchor vanished or idiom not recognised)')
@@ -105,7 +105,7 @@ def add_sites(res: CheckResult, results, kind, rule, want=lambda cname: True):
 
 
 def summary_obligations(res: CheckResult, results):
-    summ = next((r['summaries'] for r in results.values()), {})
+    summ = next((r['summaries'] for r in results.values() if r.get('summaries')), {})
     for q, s in summ.items():
         problems = list(s['problems'])
         if s['index'] != 'fresh':
@@ -269,7 +269,7 @@ def prop_C04(repo, tier):
                  as_rule=lambda f: 'SPLICE')
     res.rules['RO-REPLACE'] = 'roReplace removes the running-order element and inserts the deep copy of the carried one, re-tagged roCreate, in its place'
     for cname, r in results.items():
-        if schema.ROLES[cname][0] == 'ROREPLACE':
+        if schema.ROLES[cname][0] == 'ROREPLACE' and not r.get('partial'):
             ops = {tuple(map(tuple, o['rootops'])) for o in r['outcomes'] if o['result'] == 'return' and not o.get('guard_present')}
             ok = ops == {(('remove', 'roCreate', 'RO'), ('insert', 'roCreate', 'COPY'))}
             res.add('RO-REPLACE', f'{cname}.merge', 'remove(roCreate) ; insert(deepcopy re-tagged roCreate)', ok, '' if ok else f'root operations: {sorted(ops)}')
@@ -757,6 +757,8 @@ def prop_C07(repo, tier):
         res.error(f'GUARD-DOM: expected exactly one completion-marker probe on the root in RunningOrder.__add__, found {guard}')
     marker = guard[0] if guard else None
     for cname, r in results.items():
+        if r.get('partial'):
+            continue              # the analysis of this class broke down (reported as an error): no outcome set to judge
         present = [o for o in r['outcomes'] if o.get('guard_present')]
         ok = bool(present) and all(o['result'] == 'raise MosCompletedMergeError' and not o['effects'] and not o['mutated'] for o in present)
         res.add('GUARD-DOM', 'RunningOrder.__add__', f'completed running order + {cname}', ok,
@@ -836,6 +838,8 @@ def prop_C14(repo, tier):
     prog = program(repo)
     results = collect_merge(res, repo)
     for cname, r in results.items():
+        if r.get('partial'):
+            continue              # the analysis of this class broke down (reported as an error): no outcome set to judge
         kind = schema.ROLES[cname][0]
         ops = {tuple(map(tuple, o['rootops'])) for o in r['outcomes'] if o['result'] == 'return' and not o.get('guard_present')}
         if kind == 'ROREPLACE':
